@@ -524,6 +524,7 @@ type Contract struct {
 	Inline    bool // callers inline the body instead of using the contract
 	Trusted   bool // assumed, body not verified (listed as assumption)
 	OvfAssume bool // signed 64-bit overflow assumed absent instead of proved
+	NoWrite   []string // heap keys this function (transitively) never writes: static frame obligations
 	Function  bool // pure AND deterministic: its result is an uninterpreted function of its arguments and the memory they reach; callable in contracts
 	PureFuncs bool // function-typed parameters are pure total deterministic functions (assumption)
 	NoPanic   bool // callers may rely on: does not panic when requires hold (always true for verified fns)
@@ -590,7 +591,7 @@ func (cf *ContractFile) parse(src, file string) error {
 	}
 	keywords := map[string]bool{"func": true, "extern": true, "requires": true, "ensures": true, "modifies": true, "pure": true,
 		"floats": true, "mode": true, "inline": true, "trusted": true, "ovf": true, "loop": true, "lemma": true, "spec": true,
-		"opt": true, "ghost": true, "uses": true, "nopanic": true, "purefuncs": true, "function": true}
+		"opt": true, "ghost": true, "uses": true, "nopanic": true, "purefuncs": true, "function": true, "nowrite": true}
 	var clauses []string
 	for _, ln := range lines {
 		if ln == "" {
@@ -763,6 +764,12 @@ func (c *Contract) addClause(kw, rest string) error {
 		c.NoPanic = true
 	case "purefuncs":
 		c.PureFuncs = true
+	case "nowrite":
+		for _, k := range splitTop(rest) {
+			if k = strings.TrimSpace(k); k != "" {
+				c.NoWrite = append(c.NoWrite, k)
+			}
+		}
 	case "function":
 		c.Function = true
 		c.Pure = true
